@@ -415,3 +415,22 @@ Proof.
   split; [vm_compute; reflexivity|]. split; [vm_compute; reflexivity|].
   eexists. split; [vm_compute; reflexivity|]. vm_compute. discriminate.
 Qed.
+
+(* ------------------------------------------------------------------ *)
+(* The property speaks of a target namespace at a NON-FIRST index.  This is [extend_err] restricted
+   to that domain: it says nothing about asking for the first namespace (where the code at present
+   succeeds on a set without classes and fails otherwise — behaviour of the code, followed by the
+   model, not promised by the property), so it survives an early bail for namespace 0 in `extend`. *)
+Corollary extend_err_nonfirst M name ns :
+  wf M = true -> ns_index (ms_ns M) name = Some ns -> ns <> O ->
+  (extend M name = Err <->
+   exists c src b, In c (ms_classes M) /\ class_key c = Some src /\
+     nth_name (c_names c) ns = Some b /\ Broken (ms_classes M) ns src).
+Proof.
+  intros Hwf Hi Hns. rewrite (extend_err M name Hwf). split.
+  - intros [H|[[H _]|(ns' & c & src & b & H & R)]].
+    + rewrite Hi in H. discriminate.
+    + rewrite Hi in H. injection H as H. contradiction.
+    + rewrite Hi in H. injection H as H. subst ns'. exists c, src, b. exact R.
+  - intros (c & src & b & H). right; right. exists ns, c, src, b. split; [exact Hi|exact H].
+Qed.
